@@ -201,10 +201,17 @@ pub fn configs(tier: Tier) -> Vec<InCfg> {
                     bp: 0,
                 });
             }
+            let mut alpha = alphabet(ver, role);
+            if state == 7 {
+                // ... also when the first write already carries a payload piece of at least min_chunk_size bytes, so that
+                // the publish is announced with part of its payload (seeded change C16_r12 took only a publish announced
+                // with an empty buffer for a streamed one, and the chunks of any other were held back by the limits)
+                alpha.push(T::PubSplit { qos: 1, id: 0, len: 12 });
+            }
             v.push(InCfg {
                 ep,
                 connect_props: vec![],
-                alphabet: alphabet(ver, role),
+                alphabet: alpha,
                 prologue,
                 max_len: if tier == Tier::Quick { 3 } else { 4 },
                 outcomes: vec![GateOutcome::Ok],
